@@ -642,6 +642,13 @@ func sliceAppends(v ssa.Value) (apps []*ssa.Call, bases []ssa.Value) {
 			}
 			bases = append(bases, x)
 		case *ssa.Const:
+		case *ssa.Slice:
+			// a window of the list (rules[i:j]) holds the list's elements
+			if _, isArr := x.X.(*ssa.Alloc); isArr {
+				bases = append(bases, x)
+				return
+			}
+			walk(x.X, d+1)
 		case *ssa.UnOp:
 			if a, ok := x.X.(*ssa.Alloc); ok {
 				for _, s := range cellSources(a) {
